@@ -13,8 +13,8 @@ type monC10 struct {
 	slashed    bool
 }
 
-func newMonC10() *monC10      { return &monC10{} }
-func (m *monC10) Name() string { return "C10" }
+func newMonC10() *monC10           { return &monC10{} }
+func (m *monC10) Name() string     { return "C10" }
 func (m *monC10) Finish(r *Runner) {}
 
 // nativeBonded = total bonded - alliance-minted stake on bonded validators (exact).
